@@ -320,10 +320,53 @@ Proof. exact snip_strips_matched_name. Qed.
    number the address spells at the '#' (rBOILS_BEGIN after the commit "fix:
    array ports took their index from the first digit of the address"): digits
    in the literal text k do not count; a name without '#' hands down index 0 *)
-Theorem C04_index_at_hash : forall k rest x r,
+(* PARTIAL: proved for a name whose text k in front of the first '#' is spelled by the
+   address literally (the message is k ++ x ++ r).  The full statement - k any segments
+   without '#', the address spelling them as the pattern language says, i.e. one of the
+   alternatives for a group {a,b}:
+     forall pre ds tl s x r, (forall d, ~ In (Enum d) pre) -> spells pre s ->
+       x <> [] -> digits x -> starts_with_digit r = false ->
+       port_index (render_segs (pre ++ [Enum ds]) ++ tl) (s ++ x ++ r) = dec x
+   is false of the faithful model: C04_index_behind_alternatives_refuted.  The side
+   condition "no alternative group in front of the first '#'" is the complement of the
+   known finding index-behind-alternatives (tools/props/C04.py alt_before_hash). *)
+Theorem C04_index_at_hash_partial : forall k rest x r,
   ~ In 35 k -> x <> [] -> digits x -> starts_with_digit r = false ->
   port_index (k ++ 35 :: rest) (k ++ x ++ r) = dec x.
 Proof. exact port_index_at_hash. Qed.
+
+(* a12b#4/ addressed by a12b03/x satisfies the hypotheses: the index handed down is 3
+   (the digits of the literal text and the leading zero do not count) *)
+Theorem C04_index_at_hash_nonvacuous :
+  let k := [97; 49; 50; 98] in let rest := [52; 47] in let x := [48; 51] in let r := [47; 120] in
+  ~ In 35 k /\ x <> [] /\ digits x /\ starts_with_digit r = false /\
+  port_index (k ++ 35 :: rest) (k ++ x ++ r) = 3 /\ dec x = 3.
+Proof. exact port_index_at_hash_nonvacuous. Qed.
+
+(* REFUTED (known finding index-behind-alternatives, not repaired): behind an alternative
+   group the index is read at the wrong place.  { p{q,r}#2/ -> { x } } with /pq1/x: the
+   name is "p" {q,r} #2 "/", the address spells "pq", index "1", rest "/x"; port_index
+   gives 0 (rBOILS_BEGIN skips 6 characters - the length of the TEXT p{q,r} - and finds no
+   digit), so the child callback runs with object 132 (index 0), not 133 (index 1), with
+   and without a location buffer.  Replayed on the real code: corpus/C04/findings.txt. *)
+Theorem C04_index_behind_alternatives_refuted :
+  exists pre ds tl s x r,
+    (forall d, ~ In (Enum d) pre) /\ spells pre s /\ x <> [] /\ digits x /\ dec x < dec ds /\
+    starts_with_digit r = false /\
+    t_ports tab_iba_root = [(render_segs (pre ++ [Enum ds]) ++ tl, true)] /\
+    strip msg_iba = s ++ x ++ r /\
+    dec x = 1 /\
+    port_index (render_segs (pre ++ [Enum ds]) ++ tl) (s ++ x ++ r) = 0 /\
+    child_obj 1 0 0 (dec x) = 133 /\
+    dispatch tree_iba msg_iba [] true 1 =
+    {| loc := Some [47]; matches := 1; obj := 1; dport := Some (1, 0);
+       log := [Ev 1 0 [120] 132 (Some [47; 112; 113; 49; 47; 120]) (Some (1, 0)) true;
+               Ev 0 0 [112; 113; 49; 47; 120] 1 (Some [47; 112; 113; 49; 47]) (Some (0, 0)) false] |} /\
+    dispatch tree_iba msg_iba [] false 1 =
+    {| loc := None; matches := 0; obj := 1; dport := Some (1, 0);
+       log := [Ev 1 0 [120] 132 None (Some (1, 0)) true;
+               Ev 0 0 [112; 113; 49; 47; 120] 1 None (Some (0, 0)) false] |}.
+Proof. exact index_behind_alternatives_refuted. Qed.
 
 (* names of several components: { a#2/b#3/ -> { x, u/v/ -> { w } }, a#2/k#2:i }
    satisfies the hypotheses; /a1/b2/u/v/w runs the chain of three callbacks
